@@ -72,6 +72,17 @@ class Runner:
         return self.call(dt, x)
 
 
+def unfreeze(v):
+    """plain python containers for the reference model (an ImmutableDict is a dict for it)"""
+    if isinstance(v, dict):
+        return {k: unfreeze(w) for k, w in v.items()}
+    if isinstance(v, tuple):
+        return tuple(unfreeze(w) for w in v)
+    if isinstance(v, list):
+        return [unfreeze(w) for w in v]
+    return v
+
+
 def case_json(spec, entry, x, prev_idx):
     return {'spec': T.tojson(spec), 'entry': entry, 'x': V.enc(x), 'prev': prev_idx}
 
@@ -210,6 +221,28 @@ def check_type(spec, part, k, only_case=None, reconf_from=None):
                         part.violation(f'C01:{entry}:{top}:P:outcome-depends-on-previous', case,
                                        f'{T.sstr(spec)} {entry} x={x!r}: with previous=None {base[0]} {base[1]!r}, '
                                        f'with previous={prev!r} {kind} {r!r}')
+            if entry == 'drv' and not structfree and only_case is None or \
+                    only_case is not None and only_case['entry'] == 'frozen' and repr(V.dec(only_case['x'])) == repr(x):
+                # the result of the bare conversion (frozen structs, members converted but limits unchecked: what module code
+                # holds after reading such a value) handed to validate: being frozen is no proof of having been validated
+                kc, fx = run.conv(dt, x)
+                if kc == 'ok' and repr(fx) != repr(x):
+                    part.evaluations += 1
+                    kind, r = run.drv(dt, fx, None)
+                    part.traces += 1
+                    part.outcomes[f'{top}:frozen:{kind}'] += 1
+                    case = case_json(spec, 'frozen', x, 0)
+                    if reconf_from is not None:
+                        case['reconf_from'] = T.tojson(reconf_from)
+                    plain = unfreeze(fx)
+                    if kind == 'exc':
+                        part.violation(f'C01:frozen:T:{type(r).__name__}:{norm(r)}', case,
+                                       f'{T.sstr(spec)} validate of the converted value {fx!r}: unexpected {type(r).__name__}: {r}')
+                    elif kind == 'ok':
+                        res = R.judge(spec, plain, r, None, 'drv')
+                        if res:
+                            part.violation(f'C01:frozen:{res[2]}:{res[0]}:{norm(res[1])}', case,
+                                           f'{T.sstr(spec)} validate of the converted (frozen) value {fx!r} of x={x!r} -> {r!r}: {res[1]}')
             if entry == 'drv':
                 if only_case is not None and (only_case['entry'] != 'conv' or repr(V.dec(only_case['x'])) != repr(x)):
                     continue
